@@ -459,6 +459,99 @@ def _ast_twin(src, kind):
                 return ast.BoolOp(op, [ast.UnaryOp(ast.Not(), v) for v in node.operand.values])
             return node
 
+    class Small2(ast.NodeTransformer):
+        # the reverse of normalize.small_forms
+        def visit_Try(self, node):
+            self.generic_visit(node)
+            if len(node.handlers) == 1 and not node.orelse and not node.finalbody and node.handlers[0].type is not None \
+                    and node.handlers[0].name is None and len(node.handlers[0].body) == 1 and \
+                    isinstance(node.handlers[0].body[0], ast.Pass) and 'contextlib' in imported:
+                t = node.handlers[0].type
+                args = list(t.elts) if isinstance(t, ast.Tuple) else [t]
+                call = ast.Call(ast.Attribute(ast.Name('contextlib', ast.Load()), 'suppress', ast.Load()), args, [])
+                return ast.With([ast.withitem(call, None)], node.body)
+            return node
+
+        def visit_For(self, node):
+            self.generic_visit(node)
+            if isinstance(node.iter, ast.Attribute) and node.iter.attr in ('_cache', 'cache', '_poolctrl', 'id_to_obj'):
+                node.iter = ast.Call(ast.Attribute(node.iter, 'keys', ast.Load()), [], [])
+            return node
+
+        def visit_Call(self, node):
+            self.generic_visit(node)
+            if isinstance(node.func, ast.Name) and node.func.id == 'isinstance' and len(node.args) == 2 and \
+                    isinstance(node.args[1], ast.Tuple) and len(node.args[1].elts) >= 2 and not has_call(node.args[0]):
+                import copy as _copy
+                return ast.BoolOp(ast.Or(), [ast.Call(ast.Name('isinstance', ast.Load()), [_copy.deepcopy(node.args[0]), t], [])
+                                             for t in node.args[1].elts])
+            return node
+
+        def visit_Delete(self, node):
+            if len(node.targets) == 1 and isinstance(node.targets[0], ast.Subscript) and \
+                    isinstance(node.targets[0].value, (ast.Name, ast.Attribute)) and \
+                    not isinstance(node.targets[0].slice, (ast.Slice, ast.Tuple)):
+                t = node.targets[0]
+                return ast.Expr(ast.Call(ast.Attribute(t.value, 'pop', ast.Load()), [t.slice], []))
+            return node
+
+    def kwargs_at_call_sites(cls):
+        # self.m(a, b) -> self.m(p1=a, p2=b) for methods of the same class with plain positional parameters
+        sig = {}
+        for m_ in cls.body:
+            if isinstance(m_, ast.FunctionDef) and not m_.decorator_list and not m_.args.vararg and not m_.args.posonlyargs:
+                sig[m_.name] = [a.arg for a in m_.args.args][1:]
+        for n in ast.walk(cls):
+            if isinstance(n, ast.Call) and isinstance(n.func, ast.Attribute) and isinstance(n.func.value, ast.Name) and \
+                    n.func.value.id == 'self' and n.func.attr in sig and n.args and \
+                    not any(isinstance(a, ast.Starred) for a in n.args) and len(n.args) <= len(sig[n.func.attr]) and \
+                    not any(k.arg is None for k in n.keywords):
+                names = sig[n.func.attr][:len(n.args)]
+                if not set(names) & {k.arg for k in n.keywords}:
+                    n.keywords = [ast.keyword(p_, a) for p_, a in zip(names, n.args)] + n.keywords
+                    n.args = []
+
+    def reorder_methods(cls):
+        # reverse every run of consecutive undecorated methods (nothing at class level can depend on their order)
+        i = 0
+        body = cls.body
+        while i < len(body):
+            j = i
+            while j < len(body) and isinstance(body[j], ast.FunctionDef) and not body[j].decorator_list:
+                j += 1
+            if j - i >= 2:
+                body[i:j] = list(reversed(body[i:j]))
+            i = max(j, i + 1)
+
+    imported = {al.name for n in tree.body if isinstance(n, ast.Import) for al in n.names}
+    if kind == 'auto-small-forms-reversed':
+        tree = Small2().visit(tree)
+    elif kind == 'auto-kwargs-at-call-sites':
+        for n in tree.body:
+            if isinstance(n, ast.ClassDef):
+                kwargs_at_call_sites(n)
+        # ... and constructor / function calls of this module: f(a, b) -> f(p1=a, p2=b)
+        sigs = {}
+        for n in tree.body:
+            if isinstance(n, ast.FunctionDef) and not n.decorator_list and not n.args.vararg and not n.args.posonlyargs:
+                sigs[n.name] = [a.arg for a in n.args.args]
+            elif isinstance(n, ast.ClassDef):
+                for m_ in n.body:
+                    if isinstance(m_, ast.FunctionDef) and m_.name == '__init__' and not m_.args.vararg and \
+                            not m_.args.posonlyargs:
+                        sigs[n.name] = [a.arg for a in m_.args.args][1:]
+        for c in ast.walk(tree):
+            if isinstance(c, ast.Call) and isinstance(c.func, ast.Name) and c.func.id in sigs and c.args and \
+                    not any(isinstance(a, ast.Starred) for a in c.args) and len(c.args) <= len(sigs[c.func.id]) and \
+                    not any(k.arg is None for k in c.keywords):
+                names = sigs[c.func.id][:len(c.args)]
+                if not set(names) & {k.arg for k in c.keywords}:
+                    c.keywords = [ast.keyword(p_, a) for p_, a in zip(names, c.args)] + c.keywords
+                    c.args = []
+    elif kind == 'auto-reorder-methods':
+        for n in ast.walk(tree):
+            if isinstance(n, ast.ClassDef):
+                reorder_methods(n)
     if kind == 'auto-small-respellings':
         tree = Small().visit(tree)
     elif kind == 'auto-de-morgan':
@@ -535,7 +628,8 @@ AUTO_TWINS = ('auto-reformat', 'auto-rename-locals', 'auto-flip-if-else', 'auto-
               'auto-else-after-jump', 'auto-split-and', 'auto-join-nested-if', 'auto-tuple-assign-split',
               'auto-strip-logging', 'auto-log-at-entry', 'auto-augassign-expanded', 'auto-guard-clause',
               'auto-with-to-acquire', 'auto-inline-single-use', 'auto-comp-to-loop', 'auto-lambda-to-def',
-              'auto-unpack-to-index', 'auto-small-respellings', 'auto-de-morgan')
+              'auto-unpack-to-index', 'auto-small-respellings', 'auto-de-morgan', 'auto-small-forms-reversed',
+              'auto-kwargs-at-call-sites', 'auto-reorder-methods')
 
 
 def _auto_twin(args):
